@@ -89,7 +89,7 @@ def try_patch(patch, props):
     try:
         for p in props:
             t0 = time.time()
-            rc, o = sh("VERIF_NO_CONFIRM=1 bin/check %s quick" % p, VERIF)
+            rc, o = sh("bin/check %s quick" % p, VERIF)
             viol = [l for l in o.splitlines() if l.startswith("VIOLATION")]
             detail = [l.strip()[:300] for l in o.splitlines() if l.startswith("  [")][:3]
             res[p] = {"exit": rc, "violation_lines": len(viol), "first": detail, "wall_s": round(time.time() - t0, 1)}
